@@ -240,12 +240,81 @@ func checkC01(c c01Case, ctx *vCtx) *vFailure {
 			return vFailf("%s: resolving the already resolved book changed it", what)
 		}
 	}
+	// the deprecated Resolver object used twice: resolve, then define recipes for names that
+	// were basic elements so far, then resolve again with the same object. The result must be
+	// the resolution of the book as it is then.
+	if f := c01Incremental(c, book, ctx); f != nil {
+		return f
+	}
 	if c.CLI {
 		if f := c01CLI(c, book, m, ctx); f != nil {
 			return f
 		}
 	}
 	return nil
+}
+
+func c01Incremental(c c01Case, book []vPRec, ctx *vCtx) *vFailure {
+	m := vModelResolve(book)
+	basics := map[string]bool{}
+	for _, em := range m.Elems {
+		for k := range em {
+			basics[k] = true
+		}
+	}
+	names := vSortedKeys(basics)
+	if len(names) == 0 || m.HMax+2 >= c.N {
+		return nil
+	}
+	// the second batch: every other basic element becomes a recipe over two fresh leaves
+	var extra []vPRec
+	for i, nm := range names {
+		if i%2 == 0 {
+			extra = append(extra, vPRec{Head: nm, Entries: []vPEntry{{"leaf=1", "2"}, {"leaf=2", "-1"}}})
+		}
+	}
+	full := append(append([]vPRec{}, book...), extra...)
+	want := vModelResolve(full)
+	if want.Cyclic || want.HMax >= c.N {
+		return nil
+	}
+	db := vBuildDB(book, vPermFromSeed(len(book), c.PermSeed))
+	r := resolver.NewResolver(db, resolver.Config{MaxDepth: c.N})
+	if err := r.Resolve(); err != nil {
+		return vFailf("incremental use: first Resolve failed: %v", err)
+	}
+	for _, e := range extra {
+		n := shared.NewParserNode(e.Head)
+		for _, en := range e.Entries {
+			n.Elements.Add(en.Name, vNearest(en.Num))
+		}
+		db.Push(shared.NewDBNodeFromNode(n))
+	}
+	err1 := r.Resolve()
+	ctx.Run(2)
+	ctx.Label("incremental-resolver-reuse")
+	if err1 != nil {
+		return vFailf("incremental use: Resolve on the extended book failed: %v (h_max=%d, N=%d)", err1, want.HMax, c.N)
+	}
+	if f := vCheckResolvedDB(db, full, want, c.Exact, "the same Resolver used again after recipes were added for names that were basic elements"); f != nil {
+		return f
+	}
+	// the function entry point on the same situation
+	db2 := vBuildDB(book, vPermFromSeed(len(book), c.PermSeed))
+	if _, err := resolver.Resolve(resolver.Config{MaxDepth: c.N}, db2); err != nil {
+		return vFailf("incremental use: Resolve failed: %v", err)
+	}
+	for _, e := range extra {
+		n := shared.NewParserNode(e.Head)
+		for _, en := range e.Entries {
+			n.Elements.Add(en.Name, vNearest(en.Num))
+		}
+		db2.Push(shared.NewDBNodeFromNode(n))
+	}
+	if _, err := resolver.Resolve(resolver.Config{MaxDepth: c.N}, db2); err != nil {
+		return vFailf("incremental use: second Resolve failed: %v", err)
+	}
+	return vCheckResolvedDB(db2, full, want, c.Exact, "Resolve called again after recipes were added for names that were basic elements")
 }
 
 func c01CLI(c c01Case, book []vPRec, m vResolved, ctx *vCtx) *vFailure {
@@ -555,6 +624,17 @@ func c11Chain(prefix string, L int) []vRec {
 	return recs
 }
 
+// c11ChainToEmpty: r0 -> ... -> r(L-1) -> e where e is a recipe without entries: h = L.
+func c11ChainToEmpty(prefix string, L int) []vRec {
+	recs := c11Chain(prefix, L)
+	if L == 0 {
+		return recs
+	}
+	e := prefix + "empty"
+	recs[L-1].Lines[0].Name = e
+	return append(recs, vRec{Head: e, HL: vLayout{EOL: "\n"}})
+}
+
 // c11Cycle: entry path e0 -> ... -> e(D-1) -> c0 -> c1 -> ... -> c(K-1) -> c0
 func c11Cycle(K, D int) []vRec {
 	var recs []vRec
@@ -583,6 +663,10 @@ func genC11(t *rapid.T) c11Case {
 			L = 0
 		}
 		recs = c11Chain("r", L)
+		if rapid.IntRange(0, 2).Draw(t, "toempty") == 0 {
+			c.Shape = "chain-to-empty-recipe"
+			recs = c11ChainToEmpty("r", L)
+		}
 		if rapid.Bool().Draw(t, "second") {
 			recs = append(recs, c11Chain("s", rapid.IntRange(0, n+1).Draw(t, "L2"))...)
 		}
@@ -645,6 +729,9 @@ func c11EnumSpace(maxN int) []c11EnumSpec {
 		for L := 0; L <= n+3; L++ {
 			out = append(out, c11EnumSpec{n, 0, L, 0})
 		}
+		for L := 1; L <= n+2; L++ {
+			out = append(out, c11EnumSpec{n, 2, L, 0})
+		}
 		for K := 1; K <= 4; K++ {
 			for D := 0; D <= 3; D++ {
 				out = append(out, c11EnumSpec{n, 1, K, D})
@@ -668,7 +755,7 @@ func TestVerifC11Random(t *testing.T) {
 func TestVerifC11Enum(t *testing.T) {
 	specs := c11EnumSpace(vPick(8, 12))
 	vEnum(t, "C11", "c11.enum",
-		"for every N up to the bound: pure chains of every length 0..N+3 and cycles of length 1..4 entered at depth 0..3",
+		"for every N up to the bound: pure chains of every length 0..N+3, chains of length 1..N+2 ending in an empty recipe, and cycles of length 1..4 entered at depth 0..3",
 		fmt.Sprintf("N in 1..%d x (chain L in 0..N+3 | cycle K in 1..4 x entry depth 0..3)", vPick(8, 12)), len(specs),
 		func(i int) c11Case {
 			s := specs[i]
@@ -676,6 +763,9 @@ func TestVerifC11Enum(t *testing.T) {
 			if s.Kind == 0 {
 				c.Shape = "chain"
 				c.Book = vDoc{Recs: c11Chain("r", s.A)}
+			} else if s.Kind == 2 {
+				c.Shape = "chain-to-empty-recipe"
+				c.Book = vDoc{Recs: c11ChainToEmpty("r", s.A)}
 			} else {
 				c.Shape = "cycle"
 				c.Book = vDoc{Recs: c11Cycle(s.A, s.B)}
